@@ -443,10 +443,11 @@ func init() {
 		ID:    "C17",
 		Level: "model_checking",
 		Rule: "(A) every sequence of <=4 (5 thorough) calls {get, put, delete, scan, commit, rollback} on one read-write and one read-only transaction: the first successful finish takes effect once, every later call returns the closed error and changes nothing, the database is free afterwards (probe begin) and shows exactly the committed effect. " +
+			"(A2) the same through the network service and its registry: every sequence of <=3 (4 thorough) requests {TxGet, TxPut, TxDelete, TxPut with an empty / 4097-byte key, TxDelete / TxGet with an empty key, TxPut of a value no log record holds, Commit, Rollback} on one read-write and one read-only handle, then the client's rollback request and the cleanup of its connection: a probe writer is granted, a finished handle cannot be finished again, the data shows exactly the effect of a successful commit. " +
 			"(B) stateless exploration of 12 registry scenarios (connection cleanup of an abandoned read-write and of an abandoned read-only transaction) (idle cleanup also under a steady stream of cleanup calls 2 s apart) (graceful shutdown also with a context that is already cancelled) (2-3 threads; two simultaneous read-only begins followed by a writer is the ninth): begin waiting for the lock while the 10 s begin timeout fires as an environment event (every ready select case explored), abandonment followed by idle cleanup (direct and through the cleanup ticker), connection cleanup, graceful shutdown, commit racing rollback, stale cleanup racing commit; all interleavings up to the deviation bound (2 quick, 3 thorough) with happens-before caching. Oracle: after every terminal state a probe BeginTransaction(false) is granted (otherwise the scheduler reports the deadlock with the blocked sites), a write is visible iff its commit reported success, commit and rollback never both succeed. (C) the scenarios without long real-time waits run free in a -race build (8 / 100 iterations each): any race report, panic or hang is a violation - the exploration interleaves at synchronisation operations only, which is sufficient only if there is no unsynchronised access. Non-trivial = executions with a cross-thread conflict",
 		Assumptions: []string{"virtual time: the 10 s begin timeout, the 30 s idle limit and the cleanup ticker are environment events / clock jumps", "a client never requests a second transaction while holding one (excluded by the statement)"},
 		Units: func(tier string) []string {
-			us := []string{"seq/rw", "seq/ro"}
+			us := []string{"seq/rw", "seq/ro", "svcseq/rw", "svcseq/ro"}
 			b := 2
 			if tier == "thorough" {
 				b = 3
@@ -470,6 +471,9 @@ func init() {
 		Run: func(unit string, env *fw.Env) *fw.Result {
 			if strings.HasPrefix(unit, "seq/") {
 				return c17SeqUnit(unit, env)
+			}
+			if strings.HasPrefix(unit, "svcseq/") {
+				return c17SvcSeqUnit(unit, env)
 			}
 			if strings.HasPrefix(unit, "race/") {
 				return raceRun("C17", c17Scenarios(), unit, env)
